@@ -104,6 +104,9 @@ type Field struct {
 	Msg   *Message // KObject / KOneof / KFlatten
 	Enum  *Enum
 	Group string // non-empty: member of the exposed real oneof of that name
+	// PlainGroup: member of a real proto oneof of that name that is NOT exposed:
+	// J5 sees ordinary fields, protobuf allows at most one of them to be set.
+	PlainGroup string
 }
 
 type Message struct {
@@ -278,6 +281,14 @@ func (s *Schema) Build() error {
 			}
 		}
 		for _, f := range m.Fields {
+			if f.PlainGroup != "" {
+				if _, ok := groups["plain:"+f.PlainGroup]; !ok {
+					groups["plain:"+f.PlainGroup] = int32(len(dp.OneofDecl))
+					dp.OneofDecl = append(dp.OneofDecl, &descriptorpb.OneofDescriptorProto{Name: proto.String(f.PlainGroup)})
+				}
+			}
+		}
+		for _, f := range m.Fields {
 			t, tn := protoType(f.Kind)
 			fd := &descriptorpb.FieldDescriptorProto{
 				Name:     proto.String(f.Name),
@@ -338,6 +349,8 @@ func (s *Schema) Build() error {
 				fd.OneofIndex = proto.Int32(0)
 			} else if f.Group != "" {
 				fd.OneofIndex = proto.Int32(groups[f.Group])
+			} else if f.PlainGroup != "" {
+				fd.OneofIndex = proto.Int32(groups["plain:"+f.PlainGroup])
 			}
 			dp.Field = append(dp.Field, fd)
 		}
